@@ -273,6 +273,19 @@ func drawOps(t *rapid.T, maxW, maxH int, withResize bool) []op {
 				// text that merely looks like a padding specification
 				o.Kind = "dollar-run"
 				o.Seed = rapid.IntRange(0, 9).Draw(t, "dollardigit")
+			case 2:
+				// a blank whose foreground alone changes between two Shows
+				// (a bar in reverse video, an underlined input field)
+				st := lm.Style{Fg: tcell.PaletteColor(rapid.IntRange(1, 7).Draw(t, "blankfg")), Bg: rapid.SampledFrom([]tcell.Color{tcell.ColorDefault, tcell.ColorNavy}).Draw(t, "blankbg"),
+					Attrs: rapid.SampledFrom([]tcell.AttrMask{tcell.AttrReverse, tcell.AttrStrikeThrough, tcell.AttrNone}).Draw(t, "blankattr")}
+				if st.Attrs == tcell.AttrNone {
+					st.Ul = tcell.UnderlineStyleSolid
+				}
+				st2 := st
+				st2.Fg = tcell.PaletteColor((int(st.Fg-tcell.ColorValid) % 7) + 1)
+				ops = append(ops, op{Kind: "set", X: o.X, Y: o.Y, R: ' ', St: st}, op{Kind: "show"},
+					op{Kind: "set", X: o.X, Y: o.Y, R: ' ', St: st2}, op{Kind: "show"})
+				continue
 			}
 			// (default: store again exactly what the cell already holds)
 			ops = append(ops, o)
